@@ -275,6 +275,7 @@ func judge(r *core.Run, items []item, res []string) {
 func run(r *core.Run) {
 	r.Rule = "sequences of tokenize/detokenize/maintenance requests (structured: owner/foreign/unknown detokenization of tokens just issued, repeated consistent requests; boundary: integer limits, empty/1-byte/long strings, every e-mail length 0..12; malformed: decimal texts out of range / not numeric, type confusion) over memory and BoltDB stores ± encryption, sequentially and under seeded schedules of atomic store steps; a case is non-trivial when at least one token is issued; distinct by the op list"
 	corpus(r)
+	plantCases(r)
 	genCases(r)
 	seqCases(r)
 	dataTokCases(r)
@@ -301,6 +302,156 @@ func corpus(r *core.Run) {
 		r.Begin("corpus-int32-range-"+text, true, "stream:corpus", "corpus:int32-range")
 		res := execTrace(r, "seq", "mem", "7", its)
 		judgeDataTok(r, its, res)
+	}
+}
+
+// ---------- damaged store content: short / odd-length / wrong-type records under the looked-up id ----------
+
+func itemP(which string, c int, ty string, key []byte, rty string, data []byte) item {
+	return item{s: fmt.Sprintf("P:%s:%s:%s:%s:%s:%s:%s", which, contexts[c].cid, contexts[c].ac, ty, core.Hex(key), rty, core.Hex(data)), kind: 'P', ctx: c, ty: ty, v: key}
+}
+
+var recordLens = []int{0, 1, 2, 3, 4, 5, 7, 8, 9, 12, 16}
+
+func wantLen(ty string) int {
+	switch ty {
+	case "int32":
+		return 4
+	case "int64":
+		return 8
+	}
+	return -1
+}
+
+// plantWitnesses: the records that crashed the pinned tree (decodeInt32/decodeInt64 read 4/8 bytes of a
+// shorter stored value) – fixed; regression corpus.
+func plantWitnesses(r *core.Run) {
+	for _, w := range []struct {
+		ty string
+		n  int
+	}{{"int32", 0}, {"int32", 3}, {"int64", 0}, {"int64", 4}, {"int64", 7}} {
+		for _, kind := range []string{"mem", "bolt"} {
+			key := i32(7)
+			if w.ty == "int64" {
+				key = i64(7)
+			}
+			data := bytes.Repeat([]byte{1}, w.n)
+			plantOne(r, "corpus", kind, "7", "h", 0, w.ty, key, w.ty, data, false)
+			plantOne(r, "corpus", kind, "7", "t", 0, w.ty, key, w.ty, data, false)
+		}
+	}
+}
+
+// plantOne plants one record and sends the request that reads it (Anonymize-consistently for an `h`
+// record, Deanonymize for a `t` record; `text` = through DataTokenizer.Tokenize/Detokenize).
+// Oracle (on the implementation's result): never a panic; an integer is only ever returned from a record
+// of exactly 4/8 bytes; a `t` record of another type is refused; whatever is returned is the record's
+// content (never bytes from anywhere else).
+func plantOne(r *core.Run, stream, kind, seed, which string, c int, ty string, key []byte, rty string, data []byte, text bool) {
+	its := []item{itemP(which, c, ty, key, rty, data)}
+	isInt := ty == "int32" || ty == "int64"
+	var txt []byte
+	if isInt && text {
+		if ty == "int32" {
+			txt = []byte(strconv.FormatInt(int64(int32(binary.LittleEndian.Uint32(key))), 10))
+		} else {
+			txt = []byte(strconv.FormatInt(int64(binary.LittleEndian.Uint64(key)), 10))
+		}
+	} else if text {
+		txt = key
+	}
+	switch {
+	case which == "h" && text:
+		its = append(its, itemT(true, c, ty, txt))
+	case which == "h":
+		its = append(its, itemA(true, c, ty, key))
+	case text:
+		its = append(its, itemU(c, ty, txt))
+	default:
+		its = append(its, itemD(c, ty, key))
+	}
+	r.Begin(fmt.Sprintf("plant:%s:%s:%s", kind, seed, strings.Join(strs(its), " ")), true, "stream:"+stream, "store:"+kind, "plant:"+which+":"+ty+"<-"+rty, fmt.Sprintf("plant-len:%d", len(data)))
+	var res []string
+	if rty == "raw" {
+		// not a TokenValue encoding at all: the protobuf decoder is not modelled – implementation and oracle only
+		out := r.Impl(fmt.Sprintf("C10.trace seq %s %s %s", kind, seed, strings.Join(strs(its), " ")))
+		res = strings.Split(strings.SplitN(out, ";", 2)[0], ",")
+	} else {
+		res = execTrace(r, "seq", kind, seed, its)
+	}
+	if len(res) != 1 {
+		r.Fail("harness-plant", "unexpected trace result "+strings.Join(res, ","))
+		return
+	}
+	out := res[0]
+	what := fmt.Sprintf("%s request for a %s value with a planted %d-byte `%s.` record of type %s (store %s)", map[string]string{"h": "tokenize", "t": "detokenize"}[which], ty, len(data), which, rty, kind)
+	if !r.Check(out != "panic", fmt.Sprintf("stored-record-panic:%s:len%d", ty, len(data)), what+" panics: "+core.LastPanic) {
+		return
+	}
+	got, ok := okTok(out)
+	if !ok {
+		return // an error is always acceptable for a damaged store
+	}
+	enc := strings.HasSuffix(kind, "+enc")
+	planted := !(enc && which == "h" && len(data) == 0) // the encrypting wrapper cannot store an empty payload
+	if !planted {
+		return
+	}
+	if which == "t" && rty != ty {
+		// a record of another type (or no TokenValue at all) must not be delivered as a value of this type
+		// (`raw` bytes may happen to decode as a TokenValue of the requested type – then the value is inside them)
+		if rty != "raw" {
+			r.Fail("stored-record-type-confusion:"+ty, what+" returned "+out)
+		}
+		return
+	}
+	if text && isInt {
+		// decimal text of the stored integer
+		bits := 32
+		if ty == "int64" {
+			bits = 64
+		}
+		i, err := strconv.ParseInt(string(got), 10, bits)
+		r.Check(err == nil && len(data) == wantLen(ty) && bytes.Equal(map[bool][]byte{true: i32(int32(i)), false: i64(i)}[ty == "int32"], data), "stored-record-misread:"+ty, what+" returned "+string(got))
+		return
+	}
+	if n := wantLen(ty); n >= 0 {
+		r.Check(len(data) == n && bytes.Equal(got, data), "stored-record-misread:"+ty, what+" returned "+out+" from a record of "+fmt.Sprint(len(data))+" bytes")
+	} else if rty != "raw" {
+		r.Check(bytes.Equal(got, data), "stored-record-misread:"+ty, what+" returned "+out+", the record holds "+core.Hex(data))
+	}
+}
+
+func plantCases(r *core.Run) {
+	plantWitnesses(r)
+	rd := r.Rand
+	// boundary table: every type × record length × store back end (± encryption), both records, both entry points
+	for _, ty := range tyNames {
+		for _, n := range recordLens {
+			for _, which := range []string{"h", "t"} {
+				kind := core.Pick(rd, StoreKinds)
+				if !r.Thorough() && n != 0 && n != 3 && n != 4 && n != 7 && n != 8 && rd.Chance(50) {
+					continue
+				}
+				key := genValue(rd, ty)
+				data := rd.Bytes(n)
+				plantOne(r, "boundary", kind, strconv.Itoa(rd.Intn(1<<30)), which, rd.Intn(len(contexts)), ty, key, ty, data, rd.Chance(40))
+			}
+		}
+	}
+	// a record of ANOTHER type under the id; records that are no TokenValue encoding at all
+	for i := 0; i < r.N(120, 3000); i++ {
+		ty, rty := core.Pick(rd, tyNames), core.Pick(rd, append([]string{"raw", "raw"}, tyNames...))
+		kind := core.Pick(rd, StoreKinds)
+		data := rd.Bytes(core.Pick(rd, recordLens))
+		if rd.Chance(30) {
+			data = genValue(rd, core.Pick(rd, tyNames)) // a well-formed value of some type
+		}
+		which := core.Pick(rd, []string{"h", "t", "t"})
+		if which == "h" {
+			rty = ty // an `h.` record has no type field
+		}
+		plantOne(r, "malformed", kind, strconv.Itoa(rd.Intn(1<<30)), which, rd.Intn(len(contexts)), ty, genValue(rd, ty), rty, data, rd.Chance(30))
 	}
 }
 
